@@ -132,6 +132,11 @@ def run(ctx):
         g1 = [k for k in full if grade(k) == 1]
         if len(g1) >= 2:
             simple.append((g1, None))        # a vector squares to a scalar
+        # simple elements need not be of one grade: in even dimensions a vector anticommutes with the pseudoscalar, so v + s I squares
+        # to a scalar; and a blade may be stored with explicit zeros of other grades
+        if d % 2 == 0 and d >= 2:
+            simple.append(([1, 2 ** d - 1], None))
+            simple.append(([2, 1, 2 ** d - 1], None))
         for kx, sq in simple:
             for dtype in ('float', 'int', 'complex', 'ndarray', 'sympy', 'np.float64', '1d-array-values'):
                 if ctx.quick and rng.random() < 0.4:
@@ -186,6 +191,34 @@ def run(ctx):
                     if not close(ev, tot, 1e-8):
                         ctx.violation('exp-series', {**case, 'point': str(pt)}, {k: str(v) for k, v in fnum(tot).items()},
                                       {k: str(v) for k, v in fnum(ev).items()}, key=f'exp:series:{dtype}')
+        # a blade held in a container with explicit zeros of other grades (dense multivector, even subalgebra)
+        for K in [k for k in full if k][:3]:
+            keys_p = [0, K] + [k for k in full if k not in (0, K)][:2]
+            vals_p = [0.0, 0.75] + [0.0, 0.0][: len(keys_p) - 2]
+            xz = MultiVector.fromkeysvalues(alg, tuple(keys_p), list(vals_p))
+            case = {'sig': sig, 'op': 'exp', 'kx': keys_p, 'dtype': 'float, explicit zeros of other grades', 'values': vals_p}
+            ctx.case(case, tag='exp:padded')
+            try:
+                ev = {k: complex(v) for k, v in dict_of(xz.exp()).items()}
+                xv = {K: 0.75 + 0j}
+                term, tot = {0: 1.0 + 0j}, {0: 1.0 + 0j}
+                for n in range(1, 60):
+                    term = {k: v / n for k, v in ref_gp(S, term, xv).items()}
+                    tot = ref_add(tot, term)
+                if not close(ev, tot, 1e-8):
+                    ctx.violation('exp-series', case, {k: str(v) for k, v in fnum(tot).items()}, {k: str(v) for k, v in fnum(ev).items()}, key='exp:series:padded')
+            except Exception as ex:
+                ctx.violation('exp-raises', case, 'exp(x)', repr(ex)[:200], key=f'exp:raises:padded:{type(ex).__name__}')
+        # normsq is x * ~x, also for k-vectors that are not blades (non-simple bivectors in d >= 4: a grade-4 part)
+        if d >= 4:
+            for kx in ([3, 12], [5, 10, 3], [3, 12, 6]):
+                vals = [Fraction(rng.randint(1, 5)) for _ in kx]
+                xq = MultiVector.fromkeysvalues(alg, tuple(kx), list(vals))
+                case = {'sig': sig, 'op': 'normsq', 'kx': kx, 'values': [str(v) for v in vals]}
+                ctx.case(case, tag='normsq:non-simple')
+                got, exp = mv_to_dict(xq.normsq()), mv_to_dict(xq * ~xq)
+                if got != exp:
+                    ctx.violation('norm', case, str(exp), str(got), key='normsq:definition')
         # ---- Study numbers: sqrt, powers, norm ----------------------------------------------------------------------
         studies = []
         for name, K in alg.canon2bin.items():
